@@ -28,7 +28,67 @@ import (
 	"verifsim/simrt"
 )
 
-func TestSim(t *testing.T) { common.Main(t, common.Harness{Property: "C04", Run: run}) }
+func TestSim(t *testing.T) { common.Main(t, common.Harness{Property: "C04", Run: run, Craft: craft}) }
+
+// craft enumerates the fault-plan space for the thorough tier: the returned values are the first draws of
+// run() in order (security, PSK, link mode, plan kind, side, then the plan's own draws). Position = run mod
+// size; later passes over the space meet other schedules, payloads and PSK/link settings (those two come
+// from the run index as well, so that both values of each are swept).
+const maxCall = 70
+
+func craft(run uint64) []uint32 {
+	type pos struct{ kind, a, b uint32 } // kind = raw value for Weighted(1,10,3,4,2,3)
+	var space []pos
+	for io := uint32(0); io < uint32(len(ioKinds)); io++ {
+		for k := uint32(0); k < maxCall; k++ {
+			space = append(space, pos{1, io, k}) // weighted value 1 -> index 1 (io)
+		}
+	}
+	for h := uint32(0); h < 4; h++ {
+		space = append(space, pos{11, h, 0}) // gater
+	}
+	for site := uint32(0); site < uint32(len(rcSites)); site++ {
+		for n := uint32(0); n < 3; n++ {
+			space = append(space, pos{14, site, n}) // rcmgr
+		}
+	}
+	for k := uint32(0); k < maxCall; k++ {
+		space = append(space, pos{18, k, 0}) // cancel at call k
+	}
+	for tgt := uint32(0); tgt < 5; tgt++ {
+		for k := uint32(0); k < maxCall; k++ {
+			space = append(space, pos{20, k, tgt}) // close target at call k
+		}
+	}
+	n := uint64(len(space))
+	i := run % n
+	variant := run / n
+	p := space[i]
+	secu := uint32(variant % 2)
+	onB := uint32((variant / 2) % 2)
+	psk := uint32(0)
+	if (variant/4)%4 == 3 {
+		psk = 3 // Chance(1,4) is true for the value 3
+	}
+	mode := uint32((variant / 16) % 2)
+	out := []uint32{secu, psk, mode, p.kind, onB}
+	switch p.kind {
+	case 1:
+		out = append(out, p.a, p.b)
+	case 11:
+		if onB == 1 && p.a >= 3 {
+			p.a = 2
+		}
+		out = append(out, p.a)
+	case 14:
+		out = append(out, p.a, p.b)
+	case 18:
+		out = append(out, p.a)
+	case 20:
+		out = append(out, p.a, p.b)
+	}
+	return out
+}
 
 const echoProto = "/echo/1.0.0"
 
